@@ -154,11 +154,102 @@ def dataflow(func, params):
             for cond in n.ifs:
                 for p in mentions(cond):
                     sinks[p].add(('<if>', ''))
-    return sinks
+    return sinks, taint
+
+
+ORDER_FACTS = {}
+LOOP_FACTS = []
+STATE_SETTERS = ('set_backend',)
+
+
+def _mentions(node, taint):
+    out = set()
+    for n in names_in(node, ast.Load):
+        out |= taint.get(n, set())
+    return out
+
+
+def state_order(fn, taint):
+    """the calls that set pyhf's global backend/optimizer state, in source order (= execution order in these straight-line
+    command bodies; branches of one `if` are alternatives): for each, the parameters whose values reach its arguments or the
+    condition it sits under"""
+    calls = []
+
+    def visit(stmts, conds):
+        for st in stmts:
+            if isinstance(st, ast.If):
+                c2 = conds | _mentions(st.test, taint)
+                visit(st.body, c2)
+                visit(st.orelse, c2)
+                continue
+            if isinstance(st, (ast.For, ast.While, ast.With, ast.Try)):
+                for c in ast.walk(st):
+                    if isinstance(c, ast.Call) and ast.unparse(c.func) in STATE_SETTERS:
+                        calls.append((c.lineno, c.col_offset, sorted(conds | _mentions(c, taint))))
+                continue
+            for c in ast.walk(st):
+                if isinstance(c, ast.Call) and ast.unparse(c.func) in STATE_SETTERS:
+                    calls.append((c.lineno, c.col_offset, sorted(conds | {p for a in list(c.args) + [k.value for k in c.keywords] for p in _mentions(a, taint)})))
+    visit(fn.body, set())
+    return [c[2] for c in sorted(calls)]
+
+
+def loop_facts(fn, taint, multiple):
+    """for every `for` statement iterating over (something derived from) a multiple=True option: each variable assigned in the
+    loop body and read after the loop must also be read inside the body, i.e. the loop accumulates over ALL given values
+    instead of keeping the last one.  Yields (option, variable, accumulates)."""
+    out = []
+    body = fn.body
+
+    def after_nodes(loop):
+        found = [False]
+        res = []
+
+        def walk(stmts):
+            for st in stmts:
+                if st is loop:
+                    found[0] = True
+                    continue
+                if found[0]:
+                    res.append(st)
+                else:
+                    for fld in ('body', 'orelse', 'finalbody'):
+                        sub = getattr(st, fld, None)
+                        if isinstance(sub, list) and any(loop is x or any(loop is y for y in ast.walk(x)) for x in sub):
+                            walk(sub)
+                            # statements following the enclosing statement are "after" too
+                            found[0] = True
+        walk(body)
+        return res
+    for loop in [n for n in ast.walk(fn) if isinstance(n, ast.For)]:
+        pars = _mentions(loop.iter, taint) & multiple
+        if not pars:
+            continue
+        assigned = set()
+        for n in loop.body:
+            for m in ast.walk(n):
+                if isinstance(m, ast.Assign):
+                    for t in m.targets:
+                        assigned |= set(names_in(t))
+                elif isinstance(m, (ast.AugAssign, ast.AnnAssign)):
+                    assigned |= set(names_in(m.target))
+        read_in_body = set()
+        for n in loop.body:
+            read_in_body |= set(names_in(n, ast.Load))
+        read_after = set()
+        for n in after_nodes(loop):
+            read_after |= set(names_in(n, ast.Load))
+        loopvars = set(names_in(loop.target))
+        for v in sorted((assigned - loopvars) & read_after):
+            for p in sorted(pars):
+                out.append((p, v, v in read_in_body))
+    return out
 
 
 def extract_table():
     table = []
+    ORDER_FACTS.clear()
+    del LOOP_FACTS[:]
     for rel, prefix in CLI_FILES:
         tree, _ = facts.parse(os.path.join('cli', rel))
         for fn in tree.body:
@@ -174,7 +265,9 @@ def extract_table():
             argnames = [a.arg for a in fn.args.args]
             if sorted(argnames) != sorted(p['param'] for p in params) or fn.args.vararg or fn.args.kwarg:
                 raise facts.TieBroken('%s: function parameters %r do not match the click declarations %r' % (cmd, argnames, [p['param'] for p in params]))
-            sinks = dataflow(fn, argnames)
+            sinks, taint = dataflow(fn, argnames)
+            ORDER_FACTS[cmd] = state_order(fn, taint)
+            LOOP_FACTS.extend((cmd, par, var, acc) for par, var, acc in loop_facts(fn, taint, {p['param'] for p in params if p['multiple']}))
             for p in params:
                 sk = sorted(s for s in sinks[p['param']] if s[0] not in LOGGING and not (s[0] == '<if>' and s[1] in LOGGING))
                 p.update(cmd=cmd, sinks=sk, used=bool(sk))
@@ -229,6 +322,12 @@ def extract(ctx):
             facts.coq_strlist([asc(c) for c in p['choices']]), core.cbool(p['flag']), core.cbool(p['multiple']), core.cbool(p['used']),
             '; '.join('(%s, %s)' % (core.cstr(asc(a)), core.cstr(asc(b))) for a, b in p['sinks']))
     text = 'Require Import PV.Cli.\nOpen Scope string_scope.\nDefinition cli_options : list optfact :=\n  [ ' + ';\n    '.join(rec(p) for p in table) + ' ].\n'
+    text += 'Definition cli_state_order : list (string * list (list string)) :=\n  [ ' + ';\n    '.join(
+        '(%s, [%s])' % (core.cstr(c), '; '.join(facts.coq_strlist(x).replace('%string', '') for x in ORDER_FACTS[c])) for c in sorted(ORDER_FACTS)) + ' ].\n'
+    text += 'Definition cli_multi_loops : list (string * string * string * bool) :=\n  [ ' + ';\n    '.join(
+        '(%s, %s, %s, %s)' % (core.cstr(c), core.cstr(p), core.cstr(v), core.cbool(a)) for c, p, v, a in LOOP_FACTS) + ' ].\n'
+    text += ('Lemma optimizer_state_set_last : forallb (last_carries cli_state_order) last_state_documented = true.\nProof. vm_compute. reflexivity. Qed.\n'
+             'Lemma multiple_options_accumulate : non_accumulating cli_multi_loops = [].\nProof. vm_compute. reflexivity. Qed.\n')
     text += ('\n(* proved by computation on the table extracted from the current source *)\n'
              'Lemma every_option_consumed : unconsumed cli_options = [].\nProof. vm_compute. reflexivity. Qed.\n'
              'Lemma option_reaches_documented_argument : not_reaching cli_options documented = [].\nProof. vm_compute. reflexivity. Qed.\n'
@@ -795,6 +894,34 @@ def gen_cases(ctx, rng):
     for b in backends:
         cases.append(dict(cmd='cls', ws=ws, via='file', out='stdout', backend=b, measurement='shifted', test_poi=1.25))
         cases.append(dict(cmd='fit', ws=ws, via='stdin', out='file', backend=b, value=True, patches=[patch]))
+    # non-numpy backend x optimizer x optconf: the optimiser settings must survive the backend switch (values and exit status
+    # against the library called with the same backend+optimizer state)
+    nn = [('jax', 'pytorch')] if q else [('jax', 'pytorch', 'torch', 'tensorflow', 'tf')]
+    for b in nn[0]:
+        for cmd in ('cls', 'fit'):
+            extra = dict(value=True) if cmd == 'fit' else dict(test_poi=1.5)
+            cases.append(dict(cmd=cmd, ws=ws, via='file', out='stdout', backend=b, optimizer='minuit', **extra))
+            cases.append(dict(cmd=cmd, ws=ws, via='stdin', out='stdout', backend=b, optimizer='scipy', optconf=['maxiter=1'], **extra))
+            if not q or b == 'jax':
+                cases.append(dict(cmd=cmd, ws=ws, via='file', out='file', backend=b, optimizer='minuit', optconf=['strategy=2', 'tolerance=0.01'],
+                                  measurement='shifted', **extra))
+    # several --patch options: all must be applied, in the order given (order-dependent pairs included)
+    p_sig = [{'op': 'replace', 'path': '/channels/0/samples/0/data', 'value': [round(x * 0.5, 2) for x in ws['channels'][0]['samples'][0]['data']]}]
+    p_obs = [{'op': 'replace', 'path': '/observations/0/data', 'value': [x + 7.0 for x in ws['observations'][0]['data']]}]
+    p_add = [{'op': 'add', 'path': '/channels/0/samples/-', 'value': {'name': 'extra', 'data': [4.0 for _ in ws['channels'][0]['samples'][0]['data']],
+                                                                        'modifiers': [{'name': 'kx', 'type': 'normsys', 'data': {'hi': 1.2, 'lo': 0.8}}]}}]
+    p_tune = [{'op': 'replace', 'path': '/channels/0/samples/2/data', 'value': [9.0 for _ in ws['channels'][0]['samples'][0]['data']]}]
+    p_scale = [{'op': 'test', 'path': '/channels/0/samples/0/data', 'value': p_sig[0]['value']},
+               {'op': 'replace', 'path': '/channels/0/samples/1/data', 'value': [x + 5.0 for x in ws['channels'][0]['samples'][1]['data']]}]
+    multi = [[p_sig, p_obs], [p_obs, p_sig], [p_add, p_tune], [p_tune, p_add], [p_sig, p_scale], [p_scale, p_sig], [p_sig, p_obs, p_add, p_tune]]
+    p_bkg = [{'op': 'replace', 'path': '/channels/0/samples/1/data', 'value': [x + 11.0 for x in ws['channels'][0]['samples'][1]['data']]}]
+    for k, pts in enumerate(multi):
+        cases.append(dict(cmd='json2xml', ws=ws, via=rng.choice(['file', 'stdin']), patches=pts))
+        pts = [p_bkg if p is p_obs else p for p in pts]      # ws.model(patches=...) patches the model spec: channels only
+        if not q or k in (0, 2, 3, 4):
+            cases.append(dict(cmd='cls', ws=ws, via='file', out='stdout', patches=pts, test_poi=1.5))
+        if not q or k in (1, 3, 5, 6):
+            cases.append(dict(cmd='fit', ws=ws, via='file', out=rng.choice(['stdout', 'file']), patches=pts, value=True))
     if not q:
         for _ in range(12):
             w = infer_ws(rng, rng.choice([1, 2]))
